@@ -26,7 +26,7 @@ func stdName(fn *ssa.Function) string {
 
 type stdSpec func(fr *frame, c *ssa.CallCommon, args []T, st *state, pos string) []T
 
-var stdSpecs map[string]stdSpec
+var stdSpecs = map[string]stdSpec{}
 var stdWrites = map[string][]string{}
 
 func real1(f func(a string) string) stdSpec {
@@ -55,7 +55,7 @@ func (vc *VC) sqrtTerm(x string, reach string) string {
 }
 
 func init() {
-	stdSpecs = map[string]stdSpec{
+	for k, v := range map[string]stdSpec{
 		"math.Sqrt": func(fr *frame, c *ssa.CallCommon, args []T, st *state, pos string) []T {
 			x := fr.vc.define("sqarg", "Real", args[0].S)
 			return []T{{fr.vc.sqrtTerm(x, st.reach), "Real", types.Typ[types.Float64]}}
@@ -125,6 +125,8 @@ func init() {
 		"fmt.Sprint":             pureStr("fmt.Sprint"),
 		"strings.TrimSpace":      pureStrFn("strings.TrimSpace"),
 		"strings.ToLower":        pureStrFn("strings.ToLower"),
+	} {
+		stdSpecs[k] = v
 	}
 	// Exp needs Log declared for its axiom and vice versa
 	exp := stdSpecs["math.Exp"]
@@ -290,7 +292,14 @@ func (fr *frame) doSlice(x *ssa.Slice, st *state) {
 		arr := unalias(u.Elem()).Underlying().(*types.Array)
 		base := fr.addrOf(x.X, st)
 		if base.kind != aArrPtr {
-			bail("slicing a non-heap array")
+			// an array embedded in a struct or local: the slice is modelled over a fresh copy of its
+			// contents (exact for reads; writes through such a slice are outside the model)
+			fr.abstract("slice of an array embedded in another object is modelled as a read-only copy")
+			cur := fr.load(base, st)
+			r := vc.alloc(st)
+			h := vc.heapArr(vc.sortOf(arr.Elem()))
+			vc.heapSet(st, h, fmt.Sprintf("(store %s %s %s)", vc.heapGet(st, h), r, cur.S))
+			base = &addr{kind: aArrPtr, ref: r, typ: u.Elem()}
 		}
 		n := fmt.Sprintf("%d", arr.Len())
 		if x.High != nil {
